@@ -29,6 +29,10 @@
    old/new transition + "the field actually        | full: C15_update_field_semantics (+ removed/added/unchanged-sibling Example).
     changed"                                       |
    when callback                                   | full: WhenHolds inside C15_match_iff_spec_partial.
+   sub-handlers (@kopf.subhandler)                 | the row of the decorator table: C15_subhandler_inherits (only
+                                                   |   field_needs_change is inherited, so "the field actually changed" applies
+                                                   |   under @on.update/@on.field parents), C15_subhandler_wf (the criteria theorems
+                                                   |   apply to these records); tied through the real decorator inside a running parent.
    value callbacks get None for an absent field    | full since kopf b981eb5 (F15b fixed): Example C15_callback_absent_gets_none,
                                                    |   no callback guard anywhere.
    one function registered twice under the same    | selection: full, C15_dedup, C15_dedup_any_position (any positions), NoDup in
@@ -386,3 +390,42 @@ Example C15_registry_guards_satisfiable :
                                                          (Some (JObj [("spec", JObj [("f", JNum 1)])])))).
 Proof. exact ex_guards_registry. Qed.
 Print Assumptions C15_registry_guards_satisfiable.
+
+(* ==== sub-handlers ============================================================================== *)
+(* the handler record kopf.subhandler builds inside a running parent: what is inherited (field_needs_change, id prefix), what is
+   fixed, what comes from the arguments; hence it is an update handler exactly under a parent that is one, and is selected for
+   every cause kind *)
+Theorem C15_subhandler_inherits : forall parent id fn labels annotations when field value old new,
+  let s := sub_decorate parent id fn labels annotations when field value old new in
+  h_needs_change s = h_needs_change parent /\ h_id s = (h_id parent ++ "/" ++ id)%string /\
+  h_class s = HChanging /\ h_selector s = None /\ h_reason s = None /\ h_initial s = false /\
+  h_deleted s = false /\ h_requires_finalizer s = false /\
+  h_fn s = fn /\ h_labels s = labels /\ h_annotations s = annotations /\ h_when s = when /\
+  h_field s = field /\ h_value s = value /\ h_old s = old /\ h_new s = new /\
+  (forall c, updating s c <-> (is_changing c = true /\ h_needs_change parent = true)) /\
+  (forall c, cause_gate s c = Ok true).
+Proof. exact subhandler_inherits. Qed.
+Print Assumptions C15_subhandler_inherits.
+
+(* whenever the real decorator accepts the arguments under a top-level parent, the record is well-formed: every criteria theorem
+   above (C15_match_iff_spec_partial, C15_update_field_semantics, C15_non_update_current_only_partial, ...) applies to it *)
+Theorem C15_subhandler_wf : forall k pid pfn sel pl pa pw pf pv po pn id fn labels annotations when field value old new,
+  let parent := decorate k pid pfn sel pl pa pw pf pv po pn in
+  sub_allowed parent old new = true ->
+  Forall (fun kv => crit_specified (snd kv)) labels -> Forall (fun kv => crit_specified (snd kv)) annotations ->
+  wf_decl (sub_decorate parent id fn labels annotations when field value old new).
+Proof. exact subhandler_wf. Qed.
+Print Assumptions C15_subhandler_wf.
+
+Example C15_subhandler_example :
+  (* field= under @on.update: changed -> yes; unchanged (sibling changed) -> no, also with a matching value= *)
+  matches (ex_sub DUpdate CNone CNone CNone) (ex_upd (Some (JNum 1)) (Some (JNum 2)) 0) = Ok true /\
+  matches (ex_sub DUpdate CNone CNone CNone) (ex_upd (Some (JNum 1)) (Some (JNum 1)) 5) = Ok false /\
+  matches (ex_sub DUpdate (CVal (JNum 1)) CNone CNone) (ex_upd (Some (JNum 1)) (Some (JNum 1)) 5) = Ok false /\
+  matches (ex_sub DField CNone CNone (CVal (JNum 2))) (ex_upd (Some (JNum 1)) (Some (JNum 2)) 0) = Ok true /\
+  matches (ex_sub DCreate CNone CNone CNone) (ex_changing RCreate None (Some (JNum 1))) = Ok true /\
+  h_id (ex_sub DUpdate CNone CNone CNone) = "p/s"%string /\
+  sub_allowed (decorate DCreate "p" 0 ex_sel [] [] None None CNone CNone CNone) CNone CPresent = false /\
+  sub_allowed (decorate DEvent "p" 0 ex_sel [] [] None None CNone CNone CNone) CNone CNone = false.
+Proof. exact ex_subhandler. Qed.
+Print Assumptions C15_subhandler_example.
